@@ -294,6 +294,9 @@ QUERIES = [lambda v: ['sum', [None], v], lambda v: ['mean', [None], v], lambda v
            lambda v: ['argmax', [None], v], lambda v: ['sort', [0], v]]
 BQUERIES = [lambda v: ['any', [None], v], lambda v: ['all', [None], v], lambda v: ['tvl_any', [None], v],
             lambda v: ['count_masked', [], v], lambda v: ['not', [], v], lambda v: ['eq', [], v, v]]
+QUERIES_M = [lambda v: ['sum', [None], v], lambda v: ['mean', [None], v], lambda v: ['sum', [0], v], lambda v: ['max', [None], v],
+             lambda v: ['min', [0], v], lambda v: ['median', [None], v], lambda v: ['argmax', [None], v], lambda v: ['sort', [0], v],
+             lambda v: ['neg', [], v], lambda v: ['sqrt', [], v], lambda v: ['pickle', [], v]]
 IOPS_F = ['iadd', 'isub', 'imul', 'itruediv', 'ifloordiv', 'imod', 'ipow']
 IOPS_B = ['iand', 'ior', 'ixor']
 
@@ -343,18 +346,24 @@ def env_t(env, node):
 
 def gen_history(rng, shape):
     """cached queries -> in-place operator with a masked operand -> the same kind of queries again"""
-    boolean = rng.random() < 0.2
+    modelled = rng.random() < 0.5          # restrict to the statement forms of the Lean model (tied via ni_stmts)
+    boolean = (not modelled) and rng.random() < 0.3
     g = Gen(rng, shape, derivs=(not boolean) and rng.random() < 0.3)
     t = 'B' if boolean else 'F'
     x, _, s = g.leaf(t, list(shape))
-    qs = BQUERIES if boolean else QUERIES
+    qs = BQUERIES if boolean else (QUERIES_M if modelled else QUERIES)
     prog = [['query', rng.choice(qs)(x)] for _ in range(rng.randint(1, 3))]
-    if rng.random() < 0.3:
+    if rng.random() < 0.3 and not modelled:
         prog.append(['query', ['as_mask_where_zero_or_masked', [], x]])
     for _ in range(rng.randint(1, 2)):
-        op = rng.choice(IOPS_B if boolean else IOPS_F)
+        op = rng.choice(IOPS_B if boolean else (IOPS_F[:4] if modelled else IOPS_F))
         r = rng.random()
-        if r < 0.15 and not boolean:
+        if modelled:
+            y, _, _ = g.leaf('F', rng.choice([list(s), []]))
+            while y == x:
+                g.env.append(gen_leaf(rng, 'F', [], derivs=g.derivs))
+                y = ['v', len(g.env) - 1]
+        elif r < 0.15 and not boolean:
             y = rng.choice([2., 0., -0.5, 3.])
         elif op == 'ipow':
             y = rng.choice([2, 3, 0.5, -1, 1.5]) if rng.random() < 0.6 else g.leaf('F', [])[0]
@@ -380,7 +389,12 @@ def finish(cases):
     out = []
     for c in cases:
         if 'prog' in c:
+            c['req'] = M.request_prog(c['prog'], c['env'], 'A')
             out.append(c)
+            if c['req'] is not None and c['nontrivial']:
+                b = dict(c, variant='B', kind=c['kind'] + '/B')
+                b['req'] = M.request_prog(c['prog'], c['env'], 'B')
+                out.append(b)
             continue
         req_a = M.request(c['tree'], c['env'], 'A')
         c['req'] = req_a
@@ -495,7 +509,7 @@ def gen_cases(rng, tier):
 def impl(case):
     """canonical observation of every node of the tree (post-order) on the real code, for this case's variant"""
     if 'prog' in case:
-        return M.sxable([o for _, o in O.run_prog(case['prog'], case['env'], case.get('variant', 'A'))])
+        return M.canon([o for _, o in O.run_prog(case['prog'], case['env'], case.get('variant', 'A'))], case)
     nodes, ws = O.eval_nodes(case['tree'], case['env'], case.get('variant', 'A'))
     res = [o for _, _, o in nodes]
     return M.canon(res, case)
